@@ -754,9 +754,16 @@ def decision_checks(run, tmp, flow, rng, thorough):
 def fc_calculator_checks(run):
     from types import SimpleNamespace
 
-    from phonopy.cui.phonopy_script import _get_fc_calculator_params
-
     ids = {"traditional": 0, "symfc": 1, "alm": 2}
+    try:
+        from phonopy.cui.phonopy_script import _get_fc_calculator_params
+
+        _get_fc_calculator_params(SimpleNamespace(fc_calculator=None, fc_symmetry=False, fc_calculator_options=None), load_phonopy_yaml=False)
+    except (ImportError, AttributeError, TypeError) as e:
+        # optional refinement: the rule is also observed through the commands (the phonopy-load workflows need
+        # --fc-calc traditional / --no-fc-symmetry exactly when the default would be symfc)
+        run.count("intermediate hook unavailable: phonopy_script._get_fc_calculator_params (%s)" % type(e).__name__, section="correspondence")
+        return
     lines, want = [], []
     for fc in (None, "traditional", "symfc", "alm", "ALM", "Symfc", "unknown"):
         for sym in (False, True):
